@@ -15,12 +15,13 @@ and the stage dumps of the guarded hook inside `HyperedgeImprover::execute`).
 import AdaptaVerif.Lemmas.HyperTree
 import AdaptaVerif.Lemmas.HyperTreeRzle
 import AdaptaVerif.Lemmas.HyperTreeWfb
+import AdaptaVerif.Lemmas.HyperTreeJunctions
 import AdaptaVerif.Lemmas.HyperTreeWitness
 import AdaptaVerif.Props.C12
 namespace AdaptaVerif.Props.C12Ops
 open AdaptaVerif.Model.HyperTree AdaptaVerif.Check.Tree AdaptaVerif.Spec.Tree
 open AdaptaVerif.Lemmas.HyperTree AdaptaVerif.Lemmas.HyperTreeGraph AdaptaVerif.Lemmas.HyperTreeRzle
-open AdaptaVerif.Lemmas.HyperTreeWfb AdaptaVerif.Lemmas.HyperTreeWitness
+open AdaptaVerif.Lemmas.HyperTreeWfb AdaptaVerif.Lemmas.HyperTreeWitness AdaptaVerif.Lemmas.HyperTreeJunctions
 
 /-! ### the executable structure check is sound; the example trees satisfy the hypotheses -/
 
@@ -246,6 +247,23 @@ theorem mergeStep_same_terminals {t : HTree} (h : Tree t) {e e0 : HEdge} (he : e
     the ignored edge, if the traversal returns, the heap is again a well-formed tree. -/
 theorem removeZeroLengthEdges_preserves_tree {f : Nat} {s : Imp} {self : Nat} {ign : Option Nat} {s' : Imp}
     (ht : Tree s.t) (h : rzleNode f s self ign = some s') : Tree s'.t := rzleNode_tree ht h
+
+/-- Junction bookkeeping of `removeZeroLengthEdges`.  If the junction map lists exactly the junction
+    nodes, no junction is attached twice and no junction reported deleted is attached (`JInv`), then the
+    same holds after the traversal; a junction is attached to a surviving node or reported deleted
+    afterwards iff it was before (so: a junction newly reported deleted is attached to nothing that
+    survives, and survivors ∪ deleted = the junctions of the start); no junction is reported new. -/
+theorem removeZeroLengthEdges_junction_bookkeeping {f : Nat} {s : Imp} {self : Nat} {ign : Option Nat}
+    {s' : Imp} (ht : Tree s.t) (hi : JInv s) (h : rzleNode f s self ign = some s') :
+    JInv s' ∧ (∀ j, (Carried s'.t j ∨ j ∈ s'.delJ) ↔ (Carried s.t j ∨ j ∈ s.delJ)) ∧
+      (∀ j ∈ s'.delJ, ¬ Carried s'.t j) ∧ s'.newJ = s.newJ := by
+  obtain ⟨_, hJ, hC, hN⟩ := rzleNode_jinv ht hi h
+  exact ⟨hJ, hC, hJ.deleted, hN⟩
+
+/-- the executable bookkeeping check of the driver implies `JInv` -/
+theorem jinvb_sound {s : Imp} (h : jinvb s = true) : JInv s := AdaptaVerif.Lemmas.HyperTreeJunctions.jinvb_sound h
+
+example : JInv (mkImp exTwoJunctions [(1, 0), (2, 1)] [1] true) := jinvb_sound (by decide)
 
 -- non-vacuity: the traversal returns on the examples (and contracts something)
 example : ((rzleNode 100 (mkImp exStar [(1, 0)] [1] false) 0 none).map (fun s => s.t.nodes.length)) = some 3 := by
